@@ -40,10 +40,16 @@ V4Alt == {[kind |-> "v4", net |-> MaskV4(b, p), p |-> p,
          \cup {[kind |-> "v4", net |-> b, p |-> 32, text |-> V4Text(b)] : b \in AltBases4}
 AltBases6 == {<<8193, 3512, 0, 1, 0, 0, 1, 0>>, <<65152, 0, 0, 0, 513, 45055, 65034, 1>>,
               <<4660, 22136, 39612, 57072, 4660, 22136, 39612, 57072>>, <<0, 0, 0, 0, 0, 0, 0, 1>>}
+\* the low 32 bits written as a dotted quad (x:x:x:x:x:x:d.d.d.d, and the compressed ::ffff:d.d.d.d of mapped addresses)
+DottedV6(g) == Join([i \in 1..6 |-> HexText(g[i])], <<58>>) \o <<58>> \o V4Text(<<g[7] \div 256, g[7] % 256, g[8] \div 256, g[8] % 256>>)
+MappedV6(g) == <<58,58,102,102,102,102,58>> \o V4Text(<<g[7] \div 256, g[7] % 256, g[8] \div 256, g[8] % 256>>)
+Mapped == <<0, 0, 0, 0, 0, 65535, 49320, 33101>>      \* ::ffff:192.168.129.77
 V6Alt == {[kind |-> "v6", net |-> MaskV6(b, p), p |-> p,
-           text |-> (IF f = "upper" THEN Upper(Canonical(MaskV6(b, p))) ELSE FullV6(MaskV6(b, p))) \o <<47>> \o NatText(p)]
-            : b \in AltBases6, p \in {0, 10, 56, 64, 100, 127, 128}, f \in {"upper", "full"}}
+           text |-> (CASE f = "upper" -> Upper(Canonical(MaskV6(b, p))) [] f = "dotted" -> DottedV6(MaskV6(b, p)) [] OTHER -> FullV6(MaskV6(b, p)))
+                    \o <<47>> \o NatText(p)]
+            : b \in AltBases6, p \in {0, 10, 56, 64, 100, 127, 128}, f \in {"upper", "full", "dotted"}}
          \cup {[kind |-> "v6", net |-> b, p |-> 128, text |-> Canonical(b)] : b \in AltBases6}
+         \cup {[kind |-> "v6", net |-> MaskV6(Mapped, p), p |-> p, text |-> MappedV6(MaskV6(Mapped, p)) \o <<47>> \o NatText(p)] : p \in {96, 104, 112, 120, 127, 128}}
 
 BadTexts == {
   <<49,46,50,46,51,46,52,47,51,51>>,            \* 1.2.3.4/33
